@@ -13,15 +13,42 @@ package main
 
 import (
 	"fmt"
+	"sort"
+	"time"
 	"strings"
 	"sync"
+
+	"github.com/256dpi/gomqtt/client/future"
 
 	"verifh/hx"
 )
 
 func main() { hx.Main(map[string]func(*hx.Ctx){"c17": runC17}) }
 
+// awaitRegression: future.Store.Await with a deadline that has passed while a future is still pending
+// must return ErrTimeout (it used to wait without a deadline: Service.Stop -> Client.Disconnect -> Await hung)
+func awaitRegression(c *hx.Ctx) {
+	st := future.NewStore()
+	st.Put(1, future.New())
+	done := make(chan error, 1)
+	go func() { done <- st.Await(time.Nanosecond) }()
+	select {
+	case err := <-done:
+		if err == future.ErrTimeout {
+			c.Emit("direct stop -1 await-expired-deadline ok")
+		} else {
+			c.Emit("direct stop -1 await-expired-deadline FAIL returned-%v-instead-of-ErrTimeout", err)
+		}
+	case <-time.After(2 * time.Second):
+		c.Emit("direct stop -1 await-expired-deadline FAIL Store.Await(1ns)-with-a-pending-future-did-not-return-within-2s")
+	}
+	c.Stat("direct_regressions", 1)
+}
+
 func runC17(c *hx.Ctx) {
+	if c.Replay == "" {
+		awaitRegression(c)
+	}
 	var scns []*scn
 	scns = append(scns, fixedScenarios()...)
 	scns = append(scns, scheduleScenarios(c)...)
@@ -92,7 +119,11 @@ func runC17(c *hx.Ctx) {
 			// per calling goroutine, the publishes reach the peers in the order that goroutine issued them
 			last := map[string]string{}
 			bad := ""
-			for _, p := range s.peerPubs {
+			// connections are sequential, the peers' goroutines record concurrently: order by connection, then arrival
+			pubs := append([]peerPub{}, s.peerPubs...)
+			sort.SliceStable(pubs, func(i, j int) bool { return pubs[i].conn < pubs[j].conn })
+			for _, pp := range pubs {
+				p := pp.payload
 				if i := strings.IndexByte(p, '-'); i > 0 {
 					g := p[:i]
 					if last[g] != "" && last[g] >= p {
